@@ -26,6 +26,9 @@ CHECKS = {
  'C07': dict(level='model_checking', ref='3/C07', technique='TLA+ typing model (DocGen.tla, definitions and references enabled) with first-definition-wins resolution in the specification; exhaustive placements within bounds + simulation; replayed into the real parser (spec -> code)',
    text='All documents of <= 3 blocks at nesting <= 1 over paragraphs, definitions, quotes and list items (every placement of definitions relative to uses) and simulated larger ones; the specification resolves references (FirstWins invariant checked by TLC) and writes the expected HTML and definition table; the harness compares real HTML and Document.footnotes.',
    note='Trusted: the label base table of DocGen.tla (case / inner-whitespace variants, near-duplicates); Unicode case folding is outside the model.'),
+ 'C08': dict(level='exploration', ref='3/C08', technique='TLA+ acceptor for the HTML event stream (HtmlOut.tla: element stack, fixed vocabulary, attribute/text safety classes, escape image table) judged by TLC on recorded renderer outputs (trace validation)',
+   text='Real HtmlRenderer outputs (corpus, mutations, random, payload documents x 8 option combinations) are lexed strictly into events and TLC runs the acceptor on every stream; raw HTML regions are set aside by sentinel substitution; the escaping helpers are judged over every Unicode scalar value and for character-wise behaviour.',
+   note='Trusted: the strict lexer and the sentinel substitution in harness/c08.py, TLC. Inputs are sampled, helper code points are exhaustive.'),
  'C09': dict(level='exploration', ref='3/C09', technique='TLA+ law (Laws!RoundTripLaw) judged by TLC on recorded render/parse round trips (trace validation)',
    text='Round-trip records (x, y=render(parse x), z, HTML and definitions of x and y) for the 652 corpus examples x normalize_whitespace are judged by TLC; failing corpus examples that the property sets aside are listed individually in known_findings.json.',
    note='Trusted: exact string equality of HtmlRenderer output as "identical HTML"; TLC.'),
